@@ -2,6 +2,7 @@ package harness
 
 import (
 	"bytes"
+	"crypto/elliptic"
 	"crypto/sha256"
 	"encoding/json"
 	"fmt"
@@ -127,6 +128,9 @@ type w3World struct {
 	trackName []string
 	// state the builders need
 	cidX, cidX2 []byte // containers (X has meta-on-chain and a committed placement)
+	valX, valY  []byte // stored container bodies: X (meta-on-chain), Y (no meta flag); never deleted
+	cidGone     []byte // a container that was stored and deleted again
+	lockAddr    util.Uint160 // an existing lock account
 	cntSeq      int
 	rng         *rand.Rand // seeded: random signer subsets
 	nRandom     int
@@ -433,8 +437,11 @@ func (w *w3World) setup() {
 	w.must(w.send(w.god(), w.H["netmap"], "newEpoch", int64(2)), "newEpoch 2")
 
 	// container X: meta-on-chain, placement {N0} with one replica; X2: plain
-	w.cidX = w.putContainer(true)
-	w.cidX2 = w.putContainer(false)
+	w.cidX, w.valX = w.putContainer(true)
+	w.cidX2, _ = w.putContainer(false)
+	_, w.valY = w.putContainer(false)
+	w.cidGone, _ = w.putContainer(false)
+	w.must(w.send(w.god(), w.H["container"], "delete", w.cidGone, w3Fill(64, 1), w3Fill(10, 3)), "delete container")
 	w.must(w.send(w.god(), w.H["container"], "addNextEpochNodes", w.cidX, int64(0), []any{w.princ("N0").Pub}), "addNextEpochNodes")
 	w.must(w.send(w.god(), w.H["container"], "commitContainerListUpdate", w.cidX, []byte{1}), "commit")
 
@@ -447,6 +454,12 @@ func (w *w3World) setup() {
 	}
 	w.must(w.send([]*w3Princ{O, A}, w.H["nns"], "setAdmin", "c03.neofs", A.Hash), "setAdmin")
 	w.must(w.send([]*w3Princ{O}, w.H["nns"], "addRecord", "c03.neofs", int64(16), "rec0"), "addRecord")
+	w.must(w.send([]*w3Princ{O}, w.H["nns"], "addRecord", "xfer.neofs", int64(16), "keep"), "addRecord")
+
+	// neofsid: one bound key; balance: one existing lock account
+	w.must(w.send(w.god(), w.H["neofsid"], "addKey", w3OwnerID(U.Hash), []any{w3Fill(33, 5)}), "addKey")
+	w.lockAddr, _ = util.Uint160DecodeBytesBE(w3Fill(20, 0x4c))
+	w.must(w.send(w.god(), w.H["balance"], "lock", []byte("setup"), U.Hash, w.lockAddr, int64(2), int64(1000)), "lock")
 
 	// neofs: one registered candidate in each instance
 	cand := w.princ("cand")
@@ -496,12 +509,12 @@ func (w *w3World) setup() {
 
 // putContainer stores a fresh container owned by CO (as the Alphabet) and
 // returns its ID.
-func (w *w3World) putContainer(meta bool) []byte {
+func (w *w3World) putContainer(meta bool) (cid, value []byte) {
 	w.cntSeq++
 	v := w3ContainerValue(w.princ("CO").Hash, 100000+w.cntSeq)
 	id := sha256.Sum256(v)
 	w.must(w.send(w.god(), w.H["container"], "put", v, w3Fill(64, 1), w3Fill(33, 2), w3Fill(10, 3), meta), "put container")
-	return id[:]
+	return id[:], v
 }
 
 // ---------------------------------------------------------------------------
@@ -616,6 +629,17 @@ type w3Call struct {
 	ViaData  any
 	Note     string
 	NotaryOf bool
+	// Refresh re-reads the state-dependent facts (NNS owner/admin) when the
+	// same arguments are sent again later.
+	Refresh func(w *w3World, c *w3Call)
+}
+
+func (c *w3Call) again(w *w3World) *w3Call {
+	d := *c
+	if d.Refresh != nil {
+		d.Refresh(w, &d)
+	}
+	return &d
 }
 
 type w3Ctx struct {
@@ -972,7 +996,7 @@ func w3ArgsString(args []any) string {
 }
 
 // runCall executes one prepared call under one signer set and records it.
-func (w *w3World) runCall(o *w3Out, v *w3Variant, call *w3Call, set w3SigSet, req *w3Req) {
+func (w *w3World) runCall(o *w3Out, v *w3Variant, call *w3Call, set w3SigSet, req *w3Req) (succeeded bool) {
 	inst := v.C
 	notaryOff := inst == "neofs_nd"
 	h := w.H[inst]
@@ -1028,10 +1052,13 @@ func (w *w3World) runCall(o *w3Out, v *w3Variant, call *w3Call, set w3SigSet, re
 		}
 		o.unmodel[mkey] = true
 		o.recs = append(o.recs, rec)
-		return
+		return false
 	}
 	met := req.Eval(w, ctx, call, notaryOff)
 	rec.Met = met
+	succeeded = met && class == "OHaltOther"
+	silentNoop := mkey == "container.delete/3" || mkey == "neofs.onNEP17Payment/3" // Model/Witness.v silent_noops
+	refusingFalse := mkey == "balance.transfer/4" || mkey == "nns.transfer/3"       // Model/Witness.v refuses_with_false
 	privileged := false
 	for _, p := range ps {
 		if p.Name != "stranger" {
@@ -1043,6 +1070,8 @@ func (w *w3World) runCall(o *w3Out, v *w3Variant, call *w3Call, set w3SigSet, re
 		o.st.OutcomeHistogram["unmet/EFFECT"]++
 		o.st.AddViolation(fmt.Sprintf("%s (n=%d, %s) witnessed only by {%s}: requirement %s not met, yet the call had an effect: storage %v tokens %v notifications %d",
 			mkey, w.N, v.Label, strings.Join(names, ","), req.Coq(), d.Storage, d.Tokens, len(r.Events)), rec)
+	case !met && class == "OHaltOther" && silentNoop:
+		o.st.OutcomeHistogram["unmet/silent-no-op-by-design"]++
 	case !met && class == "OHaltOther":
 		o.st.OutcomeHistogram["unmet/halt-without-refusal"]++
 		o.st.AddViolation(fmt.Sprintf("%s (n=%d, %s) witnessed only by {%s}: requirement %s not met, the call changed nothing but neither faulted nor returned false",
@@ -1052,6 +1081,9 @@ func (w *w3World) runCall(o *w3Out, v *w3Variant, call *w3Call, set w3SigSet, re
 		if privileged {
 			o.distinct[dk] = true
 		}
+	case met && class == "OFalse" && !refusingFalse:
+		o.st.OutcomeHistogram["met/answered-false"]++
+		w3Best(o.reached, mkey, "halt")
 	case met && (class == "OFaultGuard" || class == "OFalse"):
 		o.st.OutcomeHistogram["met/REFUSED"]++
 		o.st.AddViolation(fmt.Sprintf("%s (n=%d, %s) witnessed by {%s}: requirement %s met, yet the call was refused: %s %s",
@@ -1072,6 +1104,7 @@ func (w *w3World) runCall(o *w3Out, v *w3Variant, call *w3Call, set w3SigSet, re
 	}
 	o.perMethod[mkey]++
 	o.recs = append(o.recs, rec)
+	return succeeded
 }
 
 var w3Rank = map[string]int{"never-enabled": 0, "guard-passed": 1, "halt": 2, "effect": 3}
@@ -1086,10 +1119,11 @@ func w3Best(m map[string]string, k, v string) {
 // The sweep
 
 type w3Variant struct {
-	C, M  string
-	Arity int
-	Label string
-	Build func(w *w3World, i int) *w3Call
+	C, M   string
+	Arity  int
+	Label  string
+	Build  func(w *w3World, i int) *w3Call
+	Repeat bool // the arguments are those of an earlier successful call
 }
 
 func w3DefaultArg(w *w3World, p manifest.Parameter) any {
@@ -1116,58 +1150,227 @@ func w3DefaultArg(w *w3World, p manifest.Parameter) any {
 	return nil
 }
 
-func (w *w3World) sweep(o *w3Out, table map[string]*w3Req, variants []*w3Variant) {
-	// methods of the manifests compiled now
-	have := map[string]bool{}
-	for _, v := range variants {
-		have[v.C+"."+fmt.Sprintf("%s/%d", v.M, v.Arity)] = true
+// runSets executes one variant under every signer set, the sets that do not
+// meet the requirement first (so that the state the builder prepared is still
+// there when the requirement is finally met); next yields the call of each
+// execution.  It returns the last call that succeeded (requirement met, HALT).
+func (w *w3World) runSets(o *w3Out, v *w3Variant, req *w3Req, next func() *w3Call) *w3Call {
+	probe := next()
+	w.fillPrinc(v, probe)
+	sets := w.signerSets(probe, w.rng, w.nRandom)
+	type item struct {
+		s   w3SigSet
+		met bool
 	}
-	seq := 0
-	for _, v := range variants {
-		req := table[w3MKey(v.C, v.M, v.Arity)]
-		probe := v.Build(w, seq)
-		seq++
-		sets := w.signerSets(probe, w.rng, w.nRandom)
-		// unmet first, so that the state the builder prepared is still there
-		// when the requirement is finally met
-		type item struct {
-			s   w3SigSet
-			met bool
-		}
-		var items []item
-		for _, s := range sets {
-			var hs []util.Uint160
-			ps := s.Ps
-			var caller *util.Uint160
-			if probe.Via != "" {
-				ps = w3Dedup(append([]*w3Princ{probe.ViaFrom}, ps...))
-				tok := w.gas
-				if probe.Via == "neo" {
-					tok = w.neo
-				}
-				caller = &tok
-			}
-			for _, p := range ps {
-				hs = append(hs, p.Hash)
-			}
-			met := req != nil && req.Eval(w, w3Ctx{signers: hs, caller: caller}, probe, v.C == "neofs_nd")
-			items = append(items, item{s, met})
-		}
-		sort.SliceStable(items, func(i, j int) bool { return !items[i].met && items[j].met })
+	var items []item
+	for _, s := range sets {
+		var hs []util.Uint160
+		ps := s.Ps
+		var caller *util.Uint160
 		if probe.Via != "" {
-			// a token transfer to the contract: the interesting witness is the sender's
-			items = []item{{w3SigSet{Name: "token-holder"}, true}}
-		}
-		if req == nil {
-			items = []item{{w3SigSet{Name: "stranger", Ps: []*w3Princ{w.princ("stranger")}}, false}}
-		}
-		for k, it := range items {
-			call := probe
-			if k > 0 {
-				call = v.Build(w, seq)
-				seq++
+			ps = w3Dedup(append([]*w3Princ{probe.ViaFrom}, ps...))
+			tok := w.gas
+			if probe.Via == "neo" {
+				tok = w.neo
 			}
-			w.runCall(o, v, call, it.s, req)
+			caller = &tok
+		}
+		for _, p := range ps {
+			hs = append(hs, p.Hash)
+		}
+		met := req != nil && req.Eval(w, w3Ctx{signers: hs, caller: caller}, probe, v.C == "neofs_nd")
+		items = append(items, item{s, met})
+	}
+	sort.SliceStable(items, func(i, j int) bool { return !items[i].met && items[j].met })
+	if probe.Via != "" {
+		// a token transfer to the contract: the interesting witness is the sender's
+		items = []item{{w3SigSet{Name: "token-holder"}, true}}
+	}
+	if req == nil {
+		items = []item{{w3SigSet{Name: "stranger", Ps: []*w3Princ{w.princ("stranger")}}, false}}
+	}
+	var lastOK *w3Call
+	for k, it := range items {
+		call := probe
+		if k > 0 {
+			call = next()
+			w.fillPrinc(v, call)
+		}
+		if w.runCall(o, v, call, it.s, req) {
+			lastOK = call
+		}
+	}
+	return lastOK
+}
+
+func w3Src(inst string) string { return strings.TrimSuffix(inst, "_nd") }
+
+func (w *w3World) methodOf(inst, name string, arity int) *manifest.Method {
+	ms := w.C[w3Src(inst)].Manifest.ABI.Methods
+	for i := range ms {
+		if ms[i].Name == name && len(ms[i].Parameters) == arity {
+			return &ms[i]
+		}
+	}
+	return nil
+}
+
+// fillPrinc completes the principals of a call from its typed arguments: a
+// Hash160 argument designates that account, a PublicKey argument the standard
+// account of the key (principals set by the builder are kept).
+func (w *w3World) fillPrinc(v *w3Variant, c *w3Call) {
+	m := w.methodOf(v.C, v.M, v.Arity)
+	if m == nil {
+		return
+	}
+	for len(c.Princ) < len(c.Args) {
+		c.Princ = append(c.Princ, nil)
+	}
+	known := func(h util.Uint160) *w3Princ {
+		if p, ok := w.byHash[h]; ok {
+			return p
+		}
+		return &w3Princ{Name: "unknown:" + h.StringLE()[:8], Hash: h}
+	}
+	for i := range c.Args {
+		if i >= len(m.Parameters) || c.Princ[i] != nil {
+			continue
+		}
+		switch m.Parameters[i].Type.String() {
+		case "Hash160":
+			switch a := c.Args[i].(type) {
+			case util.Uint160:
+				c.Princ[i] = known(a)
+			case []byte:
+				if h, err := util.Uint160DecodeBytesBE(a); err == nil {
+					c.Princ[i] = known(h)
+				}
+			}
+		case "PublicKey":
+			if b, ok := c.Args[i].([]byte); ok && len(b) == 33 {
+				if pk, err := keys.NewPublicKeyFromBytes(b, elliptic.P256()); err == nil {
+					c.Princ[i] = known(pk.GetScriptHash())
+				}
+			}
+		}
+	}
+	if v.C == "nns" {
+		w.nnsFacts(v.M, c)
+	}
+}
+
+type w3OKCall struct {
+	v *w3Variant
+	c *w3Call
+}
+
+func (w *w3World) sweep(o *w3Out, table map[string]*w3Req, variants []*w3Variant) {
+	seq := 0
+	var oks []w3OKCall
+	for _, v := range variants {
+		v := v
+		req := table[w3MKey(v.C, v.M, v.Arity)]
+		ok := w.runSets(o, v, req, func() *w3Call { c := v.Build(w, seq); seq++; return c })
+		if ok == nil || ok.Via != "" || req == nil {
+			continue
+		}
+		// the same call once more, now that its target exists / it is a repeat
+		oks = append(oks, w3OKCall{v, ok})
+		rv := *v
+		rv.Label = strings.TrimSpace(v.Label + " [identical arguments again, after the call succeeded]")
+		rv.Repeat = true
+		w.runSets(o, &rv, req, func() *w3Call { return ok.again(w) })
+	}
+	w.crossReplay(o, table, oks)
+}
+
+func w3TypesCompatible(a, b manifest.Parameter) bool {
+	ta, tb := a.Type.String(), b.Type.String()
+	return ta == tb || ta == "Any" || tb == "Any"
+}
+
+// crossReplay sends the arguments of every call that succeeded to the OTHER
+// non-safe methods of the same contract that take the same leading
+// parameters (overloads such as put/4, put/5, putNamed/6; pairs such as
+// addPeer/addPeerIR, updateState/updateStateIR, mint/burn): the target of
+// the call already exists, and whatever one entry point writes before it
+// delegates to another is exposed.
+func (w *w3World) crossReplay(o *w3Out, table map[string]*w3Req, oks []w3OKCall) {
+	seq := 0
+	for _, okc := range oks {
+		A := okc.v
+		if A.Repeat {
+			continue
+		}
+		ma := w.methodOf(A.C, A.M, A.Arity)
+		if ma == nil {
+			continue
+		}
+		for _, mb := range w.C[w3Src(A.C)].Manifest.ABI.Methods {
+			mb := mb
+			if mb.Safe || strings.HasPrefix(mb.Name, "_") || (mb.Name == A.M && len(mb.Parameters) == A.Arity) {
+				continue
+			}
+			pa, pb := ma.Parameters, mb.Parameters
+			k := len(pa)
+			if len(pb) < k {
+				k = len(pb)
+			}
+			if k == 0 || !(mb.Name == A.M || k >= 2 || len(pa) == len(pb)) {
+				continue
+			}
+			compatible := true
+			for i := 0; i < k; i++ {
+				if !w3TypesCompatible(pa[i], pb[i]) {
+					compatible = false
+				}
+			}
+			if !compatible {
+				continue
+			}
+			modes := []string{""}
+			for _, p := range pb[k:] {
+				if t := p.Type.String(); t == "Boolean" || t == "String" {
+					modes = []string{"extra parameters unset", "extra parameters set"}
+				}
+			}
+			req := table[w3MKey(A.C, mb.Name, len(pb))]
+			for _, mode := range modes {
+				mode := mode
+				lbl := fmt.Sprintf("arguments of a successful %s/%d", A.M, A.Arity)
+				if A.Label != "" {
+					lbl += " (" + A.Label + ")"
+				}
+				if mode != "" {
+					lbl += ", " + mode
+				}
+				bv := &w3Variant{C: A.C, M: mb.Name, Arity: len(pb), Label: lbl, Repeat: true}
+				seq++
+				sq := seq
+				mk := func() *w3Call {
+					c := *okc.c
+					c.Args = append([]any{}, okc.c.Args[:k]...)
+					c.Princ = append([]*w3Princ{}, okc.c.Princ[:k]...)
+					for _, p := range pb[k:] {
+						var a any
+						switch p.Type.String() {
+						case "Boolean":
+							a = mode == "extra parameters set"
+						case "String":
+							a = ""
+							if mode == "extra parameters set" {
+								a = fmt.Sprintf("c03x%d", sq)
+							}
+						default:
+							a = w3DefaultArg(w, p)
+						}
+						c.Args = append(c.Args, a)
+						c.Princ = append(c.Princ, nil)
+					}
+					return &c
+				}
+				w.runSets(o, bv, req, mk)
+			}
 		}
 	}
 }
